@@ -127,7 +127,7 @@ def one_case(src, hexe, mexe, idx, seed, tier):
         return {"config": name}, ["mke2fs failed"], {}
     bs = int(opts[opts.index("-b") + 1])
     nfiles = 2
-    ops = gen_ops(r, bs, nfiles, r.randint(10, 40 if tier == "quick" else 120), inline, inline_sz=(idx // len(CONFIGS)) % 3 == 2)
+    ops = gen_ops(r, bs, nfiles, r.randint(10, 40 if tier == "quick" else 120), inline, inline_sz=True)
     return execute(src, hexe, mexe, name, opts, ops, idx)
 
 
@@ -394,15 +394,10 @@ def run(res, replay=None):
                          "statement": "every read returns the reference bytes; after close the independent reader finds the reference content; e2fsck -fn exit 0"}
     res.cov["rule"] = "6 configurations (extent / block-mapped / inline, 1k-4k blocks); two files interleaved; writes, reads, truncations and punches at block, 12-block (first indirect) and 60-byte (inline) boundaries, holes, zero data, flush and close/reopen in between; non-trivial = at least 5 operations"
     def sig(recipe, problems):
-        # set_size on an inline-data file: either the call fails after changing i_size, or (when the new size is a
-        # multiple of the block size) it "succeeds" and the file claims a size its inline area cannot hold
-        if "inline" in recipe["config"] and any((m or "").startswith("Z ") for _, m in recipe.get("all_ops", [])):
-            return "c09:inline-set-size-no-block"
         return "c09:" + hashlib.sha256(json.dumps(recipe.get("ops", [])).encode()).hexdigest()[:12]
     known = {k["signature"] for k in e2v.known_findings() if k["property"] == "C09" and k.get("status") == "known"}
     res.add_obligation("implementation = reference on every read and final content (cases matching a listed known finding aside)",
                        not [b for b in bad if sig(*b) not in known])
-    bad.sort(key=lambda b: 1 if sig(*b) == "c09:inline-set-size-no-block" else 0)
     for recipe, problems in bad[:3]:
         res.violation("oracle", {"recipe": recipe, "problems": problems[:5]}, signature=sig(recipe, problems))
     if not pr["ok"] and not bad:
